@@ -185,7 +185,9 @@ def check_scope_mirroring(ctx, prog, tag, rule, ce, me):
                 if not pairs:
                     continue
                 n += 1
-                ok = all(x.bb != y.bb and between(x.fn, x.bb, y.bb, pops_tr.get(x.fn.path, ())) for x, y in pairs)
+                _scoped = self_scoping_walkers(prog)
+                ok = all((x.bb != y.bb and between(x.fn, x.bb, y.bb, pops_tr.get(x.fn.path, ()))) or
+                         (x.bb != y.bb and (x.sink in _scoped or y.sink in _scoped)) for x, y in pairs)
                 ctx.ob(rule, "%s%s|%s..%s" % (tag, short, a.field[0], b.field[0]), ok,
                        "the engine ends a frame between %s.%s and %s.%s, but the tracker keeps its scope open across both: a "
                        "name bound in the first part still counts as assigned in the second (macros there do not enclose the "
@@ -241,6 +243,29 @@ def scope_depths(f, push, pop):
     return least
 
 
+def self_scoping_walkers(prog):
+    """tracker helpers that walk the statements they are handed inside a scope they open and close themselves
+    (`track_walk_scoped(body, state)`: push .. walk .. pop)"""
+    out = set()
+    PUSH, POP = M + "AssignmentTracker::push", M + "AssignmentTracker::pop"
+    for k, f in prog.fns.items():
+        if not k.startswith(M) or f.kind == "closure":
+            continue
+        if not any("ast::Stmt" in f.locals[l].get("s", "") and ("[" in f.locals[l].get("s", "") or "Vec" in f.locals[l].get("s", ""))
+                   for l in range(1, f.argc + 1)):
+            continue
+        names = {c.name for c in f.calls()}
+        if PUSH not in names or POP not in names:
+            continue
+        least = scope_depths(f, PUSH, POP)
+        walks = [c for g in [f] + prog.closures_of(k) for c in g.calls() if c.name.endswith("::track_walk")]
+        host_walk_bbs = [c.bb for c in f.calls() if c.name.endswith("::track_walk") or any(
+            "c" not in a and any(o.kind == "agg" and o.rv.get("closure") for o in flow.origins(f, a)) for a in c.args)]
+        if walks and host_walk_bbs and all(least.get(b, 0) >= 1 for b in host_walk_bbs) and all(least.get(r, 0) == 0 for r in f.returns()):
+            out.add(k)
+    return out
+
+
 def check_conditional_lists_scoped(ctx, prog, tag, rule, ce, me):
     """W10: statements the engine runs only on one side of a conditional jump (the bodies of an `if` / `elif` / `else`, a
     for-else body) may or may not run, so what they assign is not definitely assigned afterwards - nor in the alternative
@@ -275,7 +300,10 @@ def check_conditional_lists_scoped(ctx, prog, tag, rule, ce, me):
         n += 1
         ok = True
         why = []
+        scoped = self_scoping_walkers(prog)
         for m in ms:
+            if m.sink in scoped:
+                continue            # the helper it is handed to opens and closes a scope around the walk
             least = scope_depths(m.fn, M + "AssignmentTracker::push", M + "AssignmentTracker::pop")
             d = least.get(m.bb)
             if d is None or d < 1:
